@@ -1,0 +1,112 @@
+/*
+* Verification hooks (runtime monitoring). Everything in this file is inert
+* unless the library is compiled with -DSVT_AV1_VERIF: every macro then
+* expands to nothing and EbVerifHooks.c compiles to an empty unit.
+*/
+#ifndef EbVerifHooks_h
+#define EbVerifHooks_h
+
+#ifdef SVT_AV1_VERIF
+#include <stdint.h>
+#include <stddef.h>
+
+#ifdef __cplusplus
+extern "C" {
+#endif
+
+#if defined(_WIN32)
+#define SVT_VERIF_API
+#else
+#define SVT_VERIF_API __attribute__((visibility("default")))
+#endif
+
+/* H1: seeded schedule perturbation at the library's own synchronisation
+ * points. Configured by env SVT_VERIF_SCHED=seed:permille:max_us. */
+SVT_VERIF_API void     svt_verif_sched_point(int site);
+SVT_VERIF_API uint64_t svt_verif_sched_count(void);
+
+/* H2: trace sink. Active when env SVT_VERIF_TRACE=<file> is set. Records are
+ * {seq, tid, kind, a, b, c, d} (7 x uint64, little endian). */
+extern int             svt_verif_trace_on;
+SVT_VERIF_API void     svt_verif_trace(uint32_t kind, uint64_t a, uint64_t b, uint64_t c,
+                                       uint64_t d);
+SVT_VERIF_API void     svt_verif_trace_flush(void);
+SVT_VERIF_API uint64_t svt_verif_trace_count(void);
+
+/* H8: live library resources per EbPtrType (0..5), counted at the
+ * EB_ADD_MEM_ENTRY / EB_REMOVE_MEM_ENTRY points. */
+SVT_VERIF_API void    svt_verif_res_add(const void *p, int type, size_t count);
+SVT_VERIF_API void    svt_verif_res_remove(const void *p, int type);
+SVT_VERIF_API int64_t svt_verif_live_entries(int type);
+SVT_VERIF_API int64_t svt_verif_live_bytes(void);
+
+/* H6: happens-before annotations for hand-offs done through plain flags. */
+SVT_VERIF_API void     svt_verif_hb_release(const volatile void *addr);
+SVT_VERIF_API void     svt_verif_hb_acquire(const volatile void *addr);
+SVT_VERIF_API uint64_t svt_verif_hb_count(void);
+
+#ifdef __cplusplus
+}
+#endif
+
+enum {
+    SVT_VERIF_SITE_MUTEX_LOCK = 1,
+    SVT_VERIF_SITE_MUTEX_UNLOCK,
+    SVT_VERIF_SITE_SEM_POST,
+    SVT_VERIF_SITE_SEM_WAIT,
+    SVT_VERIF_SITE_COND_SET,
+    SVT_VERIF_SITE_COND_WAIT,
+    SVT_VERIF_SITE_THREAD_CREATE,
+    SVT_VERIF_SITE_HB,
+};
+
+/* trace record kinds */
+enum {
+    SVT_VERIF_EV_SRM_CTOR = 1, /* a=resource, b=objects, c=producers, d=consumers */
+    SVT_VERIF_EV_SRM_WRAPPER, /* a=resource, b=wrapper, c=index */
+    SVT_VERIF_EV_SRM_FIFO, /* a=resource, b=fifo, c=index, d=0 producer / 1 consumer */
+    SVT_VERIF_EV_GET_EMPTY_CALL, /* a=fifo */
+    SVT_VERIF_EV_GET_EMPTY_RET, /* a=fifo, b=wrapper */
+    SVT_VERIF_EV_POST_FULL, /* a=resource, b=wrapper */
+    SVT_VERIF_EV_ASSIGN, /* a=queue, b=fifo, c=wrapper */
+    SVT_VERIF_EV_GET_FULL_CALL, /* a=fifo, b=blocking */
+    SVT_VERIF_EV_GET_FULL_RET, /* a=fifo, b=wrapper or 0, c=error code */
+    SVT_VERIF_EV_RELEASE, /* a=resource, b=wrapper, c=live_count before, d=1 if returned to pool */
+    SVT_VERIF_EV_INC_LIVE, /* a=resource, b=wrapper, c=increment, d=live_count after */
+    SVT_VERIF_EV_SHUTDOWN, /* a=resource */
+    SVT_VERIF_EV_SRM_INVARIANT, /* a=queue, b=objects queued, c=processes queued (violation) */
+    SVT_VERIF_EV_REL_ENABLE, /* a=resource, b=wrapper, c=enable */
+    SVT_VERIF_EV_SEG_INIT = 32, /* a=segments ptr, b=col_count, c=row_count, d=pic w sb | h sb<<16 */
+    SVT_VERIF_EV_SEG_START, /* a=segments ptr, b=segment index, c=picture number, d=tile group */
+    SVT_VERIF_EV_SEG_SB, /* a=segments ptr, b=segment index, c=sb x | y<<16, d=picture number */
+    SVT_VERIF_EV_SEG_DONE, /* a=segments ptr, b=segment index, c=picture number */
+    SVT_VERIF_EV_USER = 64,
+};
+
+#define SVT_VERIF_SCHED(site) svt_verif_sched_point(site)
+#define SVT_VERIF_TRACE(kind, a, b, c, d)                                                     \
+    do {                                                                                      \
+        if (svt_verif_trace_on)                                                               \
+            svt_verif_trace(                                                                  \
+                (kind), (uint64_t)(uintptr_t)(a), (uint64_t)(uintptr_t)(b), (uint64_t)(uintptr_t)(c), (uint64_t)(uintptr_t)(d)); \
+    } while (0)
+#define SVT_VERIF_HB_RELEASE(addr) svt_verif_hb_release(addr)
+#define SVT_VERIF_HB_ACQUIRE(addr) svt_verif_hb_acquire(addr)
+
+#else /* !SVT_AV1_VERIF */
+
+#define SVT_VERIF_SCHED(site) \
+    do {                      \
+    } while (0)
+#define SVT_VERIF_TRACE(kind, a, b, c, d) \
+    do {                                  \
+    } while (0)
+#define SVT_VERIF_HB_RELEASE(addr) \
+    do {                           \
+    } while (0)
+#define SVT_VERIF_HB_ACQUIRE(addr) \
+    do {                           \
+    } while (0)
+
+#endif /* SVT_AV1_VERIF */
+#endif /* EbVerifHooks_h */
